@@ -50,6 +50,7 @@ theorem applyEv_take (img : Bytes) (n : Nat) (e : Ev) (hn : n ≤ img.length)
     · rw [List.take_append_of_le_length (by omega), take_take_ge _ h]
     · simp only [List.length_append, zeros, List.length_replicate]; omega
   | fsync => exact ⟨rfl, hn⟩
+  | fsyncFailed => exact ⟨rfl, hn⟩
   | ret => exact ⟨rfl, hn⟩
 
 theorem applyEvents_take (es : List Ev) : ∀ (img : Bytes) (n : Nat), n ≤ img.length →
@@ -98,6 +99,7 @@ theorem image_keeps_prefix (cs : List FTxn) (ops : List Op) (hcs : FileWF cs) (k
       exact key _ (by rw [h3, h1]) h4
     | trunc n => exact key _ h1 h2
     | fsync => exact key _ h1 h2
+    | fsyncFailed => exact key _ h1 h2
     | ret => exact key _ h1 h2
 
 /-- the index saved after the first part `ops1` of a history, any crash image taken later -/
